@@ -14,7 +14,7 @@
     writes of distinct addresses and slots commute. *)
 From Coq Require Import ZArith List Bool.
 Import ListNotations.
-Open Scope Z_scope.
+Local Open Scope Z_scope.
 
 Definition addr := Z.
 Definition key := Z.
